@@ -75,6 +75,10 @@ def generate(seed, tier):
            "policy": mrng.choice((["uniform"], ["sticky", 0.5], ["sticky", 0.9], ["sticky", 0.99],
                                   ["pct", mrng.randint(1, 3), mrng.choice((300, 1500, 4000))])),
            "schedule": None}
+    # line-level pre-emption between the caller threads, the flush timer and the async replay thread
+    lrng = random.Random("%s/lines" % seed)
+    if fe in ("buffered", "bufferedN", "async_free", "async_blocked") and lrng.random() < 0.4:
+        rec["lines"] = [lrng.choice((0.02, 0.1, 0.3)), lrng.choice((3, 10, 30))]
     merges = ("none", "none", "default", "optimize")
     if fe in ("plain", "mp", "mpmulti", "serialmp"):
         txs = []
@@ -481,6 +485,8 @@ def execute(record, trace=False):
     try:
         try:
             s.setup_index()
+            if record.get("lines"):
+                s.k.enable_lines(*record["lines"])
             actors = []
             shared = {}
             if fe in ("plain", "mp", "mpmulti", "serialmp"):
